@@ -126,6 +126,14 @@ def run_unit(unit, tier):
 
 
 def build(res, st, doc):
+    # schemas that declare a str->int cast alone are loaded from their spec (so that the library's own cast helper from
+    # the cast table is used); all others, incl. the bool+int ones, are built through the API (builtin `int`)
+    if len(st[1]) == 1 and st[1][0][3] == (("str", "int"),):
+        try:
+            from mc import specs as S
+            return Schema.from_json_like([S.rule_spec(r) for r in st[1]])
+        except BaseException:
+            pass        # (not spellable / rejected: C09, C10 and C19 judge that)
     try:
         return T.build_schema(st)
     except BaseException as e:
